@@ -949,7 +949,7 @@ static void flags_string(char *dst, unsigned sect, unsigned opt)
 	}
 	dst[n] = 0;
 }
-uint64_t vf_cases(void) { return vf_thorough ? 3000000 : 60000; }
+uint64_t vf_cases(void) { return vf_thorough ? 3000000 : 240000; }
 
 void vf_case(uint64_t idx, vf_rng *r)
 {
